@@ -420,10 +420,16 @@ class ProgGen:
             # two banks sharing an output prefix letter (and hence stall_X / bubble_X): legal as long
             # as their register names differ
             letters_out[1] = letters_out[0]
+        share_in = None
+        if n_banks >= 2 and rng.random() < 0.25:
+            # two banks sharing an INPUT prefix letter: legal too, as long as their register names differ
+            share_in = (n_banks - 1, 0) if letters_out[n_banks - 1] != letters_out[0] else None
+            if share_in:
+                letters_in[share_in[0]] = letters_in[share_in[1]]
         banks = []
         for bi, (li, lo) in enumerate(zip(letters_in, letters_out)):
             regs = []
-            shared = letters_out.count(lo) > 1 and bi == 1
+            shared = (letters_out.count(lo) > 1 and bi == 1) or (share_in is not None and bi == share_in[0])
             # now and then a bank without any register (legal: it only has its control signals)
             for j in range(0 if rng.random() < 0.12 else rng.randint(1, 4)):
                 w = rng.choice(WIDTHS)
